@@ -128,6 +128,7 @@ def check_spec(spec, meta, index):
                         if out['warnings']:      # the caller has been warned: an unconverged value is allowed
                             continue
                         z, grads = out['value']
+                        obs['compared:' + method] = obs.get('compared:' + method, 0) + 1
                         results[(S, method, jpre, f64)] = z
                         msg = C.close_tensor(z, zref, 'float64' if f64 else 'float32', rtol=1e-7 if f64 else 5e-3, atol=1e-9 if f64 else 1e-4)
                         if msg:
@@ -448,6 +449,9 @@ def finalize(tot, tier, seed):
     for k in ('J', 'J_precompute_products'):
         if tot['hooks'].get(k, 0) == 0:
             inc.append(f'hook {k} never reached')
+    for m in ('fixed-point', 'newton', 'linear'):
+        if tot['obs'].get('compared:' + m, 0) == 0:
+            inc.append(f'method {m}: every run ended in a warning or an exception, nothing was compared')
     for k in ('configurations', 'gradient_comparisons', 'cross_semiring_checks', 'jpre_true_runs', 'interpreter_runs', 'interpreter_results_compared', 'cli_runs', 'cli_values_compared', 'cli_gradients_compared', 'cli_corner_specs'):
         if tot['obs'].get(k, 0) == 0:
             inc.append(f'{k} never observed')
